@@ -1,5 +1,6 @@
 """C17 — Lenient loading drops exactly the unknown-typed FS; strict loading refuses."""
 from harness import casgen, common, sessions
+from harness.common import bud
 from harness.props import c01, c05
 
 PROP = "C17"
@@ -94,7 +95,7 @@ def foreign_sessions(rng, n):
 
 def run_foreign(ctx, out, budget):
     rng = ctx.rng(7)
-    sess = foreign_sessions(rng, 60 if budget == "quick" else 9000)
+    sess = foreign_sessions(rng, bud(budget, 60, 9000))
     ops_list = [s_[0] for s_ in sess]
     impl = sessions.run_impl_sessions(ops_list)
     model = sessions.run_model_sessions(ctx.driver, ops_list)
@@ -130,7 +131,7 @@ def run(ctx, out, budget):
                 "view of the lenient CAS stay lenient. Non-trivial = distinct (document, deleted set) where at least one structure is dropped.")
     run_foreign(ctx, out, budget)
     rng = ctx.rng(0)
-    n = 120 if budget == "quick" else 15000
+    n = bud(budget, 120, 15000)
     cases = [casgen.CasGen(rng, n_types=rng.randint(2, 6), n_fs=rng.randint(2, 10), xmi_safe=True).build() for _ in range(n)]
     stage_a = []
     for g in cases:
